@@ -12,6 +12,7 @@ from simkit.world import World
 from machines import common
 
 _MEMO = {}
+REF_BUDGET = 3000000        # step-clock budget of one reference evaluation (cold caches cost more than warm ones)
 STATS = {'evals': 0, 'hits': 0, 'timeouts': 0}
 
 def _key(step, actor_kind, prec, setup):
@@ -36,7 +37,7 @@ def pristine_eval(step, prec, mode=None, setup=None, timeout=120, seed_base=b'0'
     st2['kind'] = 'call' if st2.get('kind') != 'stmt' else 'stmt'
     setup2 = json.loads(json.dumps(setup)) if setup else []
     def fn():
-        w = World(budget=None)
+        w = World(budget=REF_BUDGET)
         w.seed_base = seed_base
         ex = common.Exec(w, 'REF')
         if kind == 'clone':
@@ -54,9 +55,9 @@ def pristine_eval(step, prec, mode=None, setup=None, timeout=120, seed_base=b'0'
         return rec.get('exc') or ['exc', 'Unknown', rec['status']]
     st, val = isolate.call(fn, timeout=timeout, mode=mode)
     STATS['evals'] += 1
-    if st != 'ok':
+    if st != 'ok' or (val and val[0] == 'exc' and val[1] == 'SimBudget'):
         STATS['timeouts'] += 1
-        val = None
+        val = None                 # a reference that ran out of budget is no reference
     _MEMO[key] = val
     if len(_MEMO) > 20000:
         _MEMO.clear()
